@@ -270,13 +270,13 @@ def check_generic(case, out):
 
 FACETS = [
     Facet("elevate", lambda tier: cases("elevate", ("frac", "frac", "fracint"), 2 if tier == "quick" else 3),
-          check_elevate, quick=320, thorough=5000, rule="degree_increase / degree setter, exact decision"),
+          check_elevate, quick=600, thorough=5000, rule="degree_increase / degree setter, exact decision"),
     Facet("elevate-float", lambda tier: cases("elevate", ("float", "npfloat"), 2), check_elevate, quick=120,
           thorough=2000, rule="float data, 1e-9"),
-    Facet("reduce-roundtrip", lambda tier: cases("roundtrip", ("frac",), 2), check_roundtrip, quick=240,
+    Facet("reduce-roundtrip", lambda tier: cases("roundtrip", ("frac",), 2), check_roundtrip, quick=450,
           thorough=4000, rule="reduction of reference-elevated states must restore them"),
-    Facet("reduce-generic", lambda tier: cases("generic", ("frac",), 2), check_generic, quick=240, thorough=4000,
+    Facet("reduce-generic", lambda tier: cases("generic", ("frac",), 2), check_generic, quick=450, thorough=4000,
           rule="reduction of generic states: refuse+unchanged, or tolerance=None keeps knot values"),
-    Facet("reduce-rational-special", lambda tier: special_cases(), check_generic, quick=160, thorough=2500,
+    Facet("reduce-rational-special", lambda tier: special_cases(), check_generic, quick=320, thorough=2500,
           rule="rational curves whose weight function alone / numerator alone / constant weights are reducible"),
 ]
